@@ -21,6 +21,7 @@ type c06Supply struct {
 	form   string // plain (children), vslot (v-slot:name), hash (#name)
 	scoped string // "", "sp" (whole props under a name), "{ item }" destructured
 	body   []*c06Tpl
+	vanish bool // the content is supplied but evaluates to nothing (an element whose condition is false)
 }
 type c06Tpl struct {
 	kind     string // print slot for include
@@ -118,21 +119,25 @@ func c06Src(ts []*c06Tpl) string {
 			}
 			fmt.Fprintf(&sb, `<template include="%s"%s>`, t.file, attrs)
 			for _, s := range t.supplied {
+				never := ""
+				if s.vanish {
+					never = `<i v-if="1 == 2">never</i>`
+				}
 				val := ""
 				if s.scoped != "" {
 					val = fmt.Sprintf(`="%s"`, s.scoped)
 				}
 				switch s.form {
 				case "plain":
-					sb.WriteString(c06Src(s.body))
+					sb.WriteString(c06Src(s.body) + never)
 				case "vslot":
 					if s.name == "default" && val == "" {
-						fmt.Fprintf(&sb, "<template v-slot>%s</template>", c06Src(s.body))
+						fmt.Fprintf(&sb, "<template v-slot>%s</template>", c06Src(s.body)+never)
 					} else {
-						fmt.Fprintf(&sb, "<template v-slot:%s%s>%s</template>", s.name, val, c06Src(s.body))
+						fmt.Fprintf(&sb, "<template v-slot:%s%s>%s</template>", s.name, val, c06Src(s.body)+never)
 					}
 				case "hash":
-					fmt.Fprintf(&sb, "<template #%s%s>%s</template>", s.name, val, c06Src(s.body))
+					fmt.Fprintf(&sb, "<template #%s%s>%s</template>", s.name, val, c06Src(s.body)+never)
 				}
 			}
 			sb.WriteString("</template>")
@@ -201,6 +206,11 @@ func (g *c06Gen) supplies(depth int, files []string) []c06Supply {
 			s.scoped = Pick(g.r, []string{"", "", "sp", "{ item }", "{ item, k }"})
 		}
 		s.body = []*c06Tpl{g.watch()}
+		if g.r.Intn(6) == 0 { // supplied, and nothing comes of it: the slot shows nothing, not its fallback
+			s.body, s.vanish = nil, true
+			out = append(out, s)
+			continue
+		}
 		if depth > 0 && g.r.Intn(3) == 0 {
 			s.body = append(s.body, g.include(depth-1, files))
 		}
